@@ -476,3 +476,8 @@ MUTANTS += [
 HARMLESS += [
  {"id": "h-c19-split-local", "prop": "C19", "file": "adcgen/tensor_names.py", "old": "    n = len(tensor_names.gs_density)\n    return name[:n], name[n:]", "new": "    base = tensor_names.gs_density\n    return name[:len(base)], name[len(base):]"},
 ]
+MUTANTS += [
+ {"id": "c06-addbk-base-class", "prop": "C06", "file": "adcgen/sympy_objects.py", "old": "            return self.__class__(self.symbol, self.upper, self.lower,\n                                  bra_ket_sym)", "new": "            return AntiSymmetricTensor(self.symbol, self.upper, self.lower,\n                                       bra_ket_sym)"},
+ {"id": "c06-addbk-overwrites", "prop": "C06", "file": "adcgen/sympy_objects.py", "old": "        elif self.bra_ket_sym is S.Zero:\n            return self.__class__(", "new": "        elif self.bra_ket_sym is not S.One:\n            return self.__class__("},
+ {"id": "c06-addbk-swapped-indices", "prop": "C06", "file": "adcgen/sympy_objects.py", "old": "            return self.__class__(self.symbol, self.upper, self.lower,\n                                  bra_ket_sym)", "new": "            return self.__class__(self.symbol, self.lower, self.upper,\n                                  bra_ket_sym)"},
+]
